@@ -1083,4 +1083,17 @@ example :
       .ran [.scalar (.int 32 1), .scalar (.str [116, 119, 111])] := by
   decide
 
+/-- The exported reader `runtime.ReadSingleValue` over `runtime.Values` yields the LAST value sent under the
+name (and the empty text when there is none); `ReadCollectionValue` splits exactly that text. -/
+theorem readSingle_is_last_occurrence (pairs : List (Bytes × Bytes)) (name : Bytes) :
+    (∀ v, ((pairs.filter (·.1 == name)).map (·.2)).getLast? = some v → readSingle false pairs name = v) ∧
+    ((pairs.filter (·.1 == name)) = [] → readSingle false pairs name = []) ∧
+    (∀ cf, readCollection false pairs name cf = splitByFormat (readSingle false pairs name) cf) := by
+  refine ⟨?_, ?_, fun _ => rfl⟩
+  · intro v h; simp [readSingle, readSingleValues, h]
+  · intro h; simp [readSingle, readSingleValues, h]
+
+example : readSingle false [([97], [49]), ([98], [50]), ([97], [51])] [97] = [51] ∧
+    readCollection false [([97], [49, 44, 50])] [97] "csv" = [[49], [50]] := by decide
+
 end RtVerif.C03
